@@ -38,6 +38,8 @@ structure PendingOp where
   issued : Nat
   applied : Option Applied := none
   appliedAt : Nat := 0
+  inStopAtCall : Bool := false   -- issued while a StopWithContext{DeleteKey} of the instance was in progress
+  ledAtStop : Bool := false      -- … and that call had found the instance leading
   deriving Repr, DecidableEq, Inhabited
 
 structure ApiCall where
